@@ -306,6 +306,33 @@ def d5(cx: Cx, ob: Ob) -> None:
             detail=f"raise-in-apply-loop:{cls_}",
         )
 
+    # a pair whose old prefix the converter does not know (the exact lookup of `old` found nothing) is skipped: a
+    # path that has seen that lookup fail and still renames a record applies the pair to a record found some other way
+    def _unknown_old(g) -> bool:
+        a_, pol = g.a, g.b
+        if op(a_) == "cmp" and a_[1] in ("is", "is not") and is_const(a_[3], None):
+            x = a_[2]
+            miss = (a_[1] == "is") == bool(pol)
+            if miss and op(x) == "call" and x[2][:1] == (old,) and callee_name(x) in ("get", "standardize_prefix", "get_record") and not any(k in ("passthrough",) for k, _ in x[3]):
+                return True
+        if op(a_) == "cmp" and a_[1] in ("in", "not in") and a_[2] == old and op(a_[3]) == "attr" and a_[3][2] in ("synonym_to_prefix", "prefix_map"):
+            return (a_[1] == "not in") == bool(pol)
+        return False
+
+    for p_ in lp.body:
+        gs_ = [g for g in p_.events if g.kind == "guard"]
+        if any(_unknown_old(g) for g in gs_):
+            st_ = [e for e in p_.events if e.kind == "store" and op(e.a) == "attr" and e.a[2] in ("prefix", "prefix_synonyms")]
+            if st_:
+                ob.violate(
+                    fn.qualname,
+                    where(fn, st_[0].line),
+                    f"remap_curie_prefixes renames a record (line {st_[0].line}) on a path on which the lookup of the old prefix has found NOTHING (`{show(next(g.a for g in gs_ if _unknown_old(g)))[:60]}`): a pair whose old prefix is unknown is to be skipped, here it is applied to a record found another way (case-folded, partial ...)",
+                    witness="{'CHEBI': 'x'} on a converter that knows only 'chebi': the record is renamed although 'CHEBI' is not one of its names",
+                    detail="updates-unknown-old",
+                )
+                break
+
     def _record_stores(paths):
         for p_ in paths:
             for ev in p_.events:
